@@ -31,19 +31,23 @@ def build(world, main_entry, main_args=(), max_passes=8, verbose=False):
 
 
 def check(S, K, which=("assert", "deadlock", "unwind", "witness"), timeout_s=600, por=True, sat_threads=1, seed=0,
-          witness_extra=None, verbose=False):
-    cons, info = bmc.unroll(S, K, por=por)
+          witness_extra=None, verbose=False, assert_extra=None, unwind_assume=None, context_bound=None):
+    cons, info = bmc.unroll(S, K, por=por, context_bound=context_bound)
     qs = bmc.queries(S, info)
     res = {}
     for name in which:
         goal = qs[name]
         if name == "witness" and witness_extra is not None:
             goal = z3.And(goal, witness_extra)
+        if name == "assert" and assert_extra is not None:
+            goal = z3.Or(goal, assert_extra(S, info))
         r, model, dt = bmc.solve(cons, goal, timeout_s, sat_threads, seed)
         entry = {"result": r, "time_s": round(dt, 2), "K": K, "por_constraints": info["npor"]}
         if model is not None:
             entry["schedule"] = bmc.decode(S, info, model)
             entry["params"] = {n: model.eval(c, model_completion=True).as_signed_long() for n, (c, _, _) in S.w.params.items()}
+            first = info["steps"][0]["st"] if info["steps"] else {}
+            entry["faults"] = {n[len("fault."):-2]: z3.is_true(model.eval(v, model_completion=True)) for n, v in first.items() if n.startswith("fault.")}
             last = info["last"]
             entry["flags"] = [n for n in bmc.flag_names(S) if z3.is_true(model.eval(last[n], model_completion=True))]
         res[name] = entry
